@@ -131,6 +131,9 @@ def run_hx(cmd, env=None, timeout=3600, restartable=True, max_restarts=40):
         crashes.append(crash)
         if not restartable or crash.get('case', -1) < 0:
             return dict(lines=lines, crashes=crashes, rc=p.returncode, hung=False)
+        if sum(1 for c in crashes if c.get('key') == 'hang:watchdog') >= 3:
+            # three cases of this shard already ran into the per-case watchdog: that is a verdict, do not spend more wall clock on it
+            return dict(lines=lines, crashes=crashes, rc=p.returncode, hung=False)
         start = int(crash['case']) + 1
     return dict(lines=lines, crashes=crashes, rc=1, hung=hung)
 
